@@ -13,11 +13,13 @@
   results, verdicts, write results, paddings, chunkings) is universally quantified.
 -/
 import Hy.Proofs.Relay
+import Hy.Proofs.QStream
+import Hy.Gen.QShape
 import Hy.Props.C04
 set_option linter.unusedSimpArgs false
 set_option linter.unusedVariables false
 namespace Hy.Props.C06
-open Hy Hy.Relay
+open Hy Hy.Relay Hy.QStream
 
 /-! ### obligations on the regenerated constants -/
 theorem const_copybuf : Gen.copyBufSize = 32768 := by decide
@@ -326,6 +328,145 @@ theorem dial_error_after_failed_reads (s pad rest : Bytes) (cs : List Bytes) (k 
   | zero => simp [appReads, connRead, hr]
   | succ k ih => simpa [List.replicate_succ, appReads, connRead] using ih
 
+/-! ### QStream (core/internal/utils/qstream.go) and tcpConn's write/close half
+    (core/client/client.go) over the contract of *quic.Stream -/
+
+/-- the programs the model is made of ARE the statements of the current source: go/ast
+    extracts every method body on each run (Hy.Gen.QShape), `render` prints the model's
+    programs, and the two are equal — in particular Close is `CancelRead(0)` followed by
+    `return Close()` on the embedded stream, in that order, and nothing else. -/
+theorem qshape_qstream :
+    Gen.QShape.QStream_Close = render "s.Stream" QStream.closeP ∧
+    Gen.QShape.QStream_Read = render "s.Stream" QStream.readP ∧
+    Gen.QShape.QStream_Write = render "s.Stream" QStream.writeP ∧
+    Gen.QShape.QStream_CancelRead = render "s.Stream" QStream.cancelReadP ∧
+    Gen.QShape.QStream_CancelWrite = render "s.Stream" QStream.cancelWriteP ∧
+    Gen.QShape.QStream_SetDeadline = render "s.Stream" QStream.setDeadlineP ∧
+    Gen.QShape.QStream_SetReadDeadline = render "s.Stream" QStream.setReadDeadlineP ∧
+    Gen.QShape.QStream_SetWriteDeadline = render "s.Stream" QStream.setWriteDeadlineP := by decide
+
+set_option maxRecDepth 8000 in
+/-- tcpConn: Write, Close and the deadline setters pass straight through to the QStream;
+    Read is the lazy response read (`Established` set after a successful read only —
+    Hy.Relay.connRead) followed by the pass-through Read. -/
+theorem qshape_tcpconn :
+    Gen.QShape.tcpConn_Write = [tcpWriteM.render] ∧
+    Gen.QShape.tcpConn_Close = [tcpCloseM.render] ∧
+    Gen.QShape.tcpConn_SetDeadline = [tcpSetDeadlineM.render] ∧
+    Gen.QShape.tcpConn_SetReadDeadline = [tcpSetReadDeadlineM.render] ∧
+    Gen.QShape.tcpConn_SetWriteDeadline = [tcpSetWriteDeadlineM.render] ∧
+    Gen.QShape.tcpConn_Read =
+      ["if !c.Established { ok, msg, err := protocol.ReadTCPResponse(c.Orig) if err != nil { return 0, err } if !ok { return 0, coreErrs.DialError{Message: msg} } c.Established = true }",
+       tcpReadTailM.render] := by decide
+
+/-- qstream_close_finishes_send_and_cancels_read: on a stream whose send side is open,
+    QStream.Close returns nil, puts FIN after EVERYTHING written so far (the peer is
+    guaranteed exactly `sent` and then FIN: Close itself drops nothing), stops the receive
+    side, calls CancelRead before Close and nothing else, and afterwards Read and Write fail. -/
+theorem qstream_close_finishes_send_and_cancels_read (q : Q) (p : Bytes) (h : q.send = .open) :
+    (QStream.close q).2 = .ok ∧
+    (QStream.close q).1.send = .fin ∧ (QStream.close q).1.sent = q.sent ∧
+    (QStream.close q).1.wire = .finAfter q.sent ∧
+    (QStream.close q).1.recvCancelled = some (q.recvCancelled.getD 0) ∧
+    (QStream.close q).1.calls = .close :: .cancelRead 0 :: q.calls ∧
+    (QStream.read (QStream.close q).1).2 = .err ∧
+    (QStream.write (QStream.close q).1 p).2 = .err := by
+  cases hr : q.recvCancelled <;>
+    simp [QStream.close, QStream.read, QStream.write, QStream.closeP, QStream.readP, QStream.writeP, exec,
+      Prim.exec, ArgSrc.val, Q.cancelRead, Q.close, Q.read, Q.write, Q.wire, h, hr]
+
+/-- close_idempotent_or_as_is: a repeated Close returns nil and changes nothing but the call
+    trace — whatever state the first one found; and the FIRST Close reports an error
+    exactly when the send side had been reset (CancelWrite) and not closed before — as
+    quic-go's SendStream.Close does. -/
+theorem close_idempotent_or_as_is (q : Q) :
+    (QStream.close (QStream.close q).1).2 = .ok ∧
+    (QStream.close (QStream.close q).1).1.send = (QStream.close q).1.send ∧
+    (QStream.close (QStream.close q).1).1.sent = (QStream.close q).1.sent ∧
+    (QStream.close (QStream.close q).1).1.recvCancelled = (QStream.close q).1.recvCancelled ∧
+    (QStream.close (QStream.close q).1).1.incoming = (QStream.close q).1.incoming ∧
+    ((QStream.close q).2 = .err ↔ ∃ c, q.send = .reset c false) := by
+  cases hs : q.send with
+  | «open» =>
+    cases hr : q.recvCancelled <;>
+      simp [QStream.close, QStream.closeP, exec, Prim.exec, ArgSrc.val, Q.cancelRead, Q.close, hs, hr]
+  | fin =>
+    cases hr : q.recvCancelled <;>
+      simp [QStream.close, QStream.closeP, exec, Prim.exec, ArgSrc.val, Q.cancelRead, Q.close, hs, hr]
+  | reset c b =>
+    cases b <;> cases hr : q.recvCancelled <;>
+      simp [QStream.close, QStream.closeP, exec, Prim.exec, ArgSrc.val, Q.cancelRead, Q.close, hs, hr]
+
+/-- tcpconn_write_is_stream_write: whatever the application does with the conn between
+    `TCP()` and `Close()` — writes, Reads that time out, deadline changes, fast open or not
+    — the stream has been handed the request header ONCE and then exactly the written
+    bytes, unmodified and in order, and nothing else; the send side is still open. -/
+theorem tcpconn_write_is_stream_write (fo : Bool) (addr pad : Bytes) (inc : List Bytes) (ops : List COp) :
+    ((tcpOpen fo addr pad inc).run ops).orig.sent = Frame.writeRequest addr pad ++ writesOf ops ∧
+    ((tcpOpen fo addr pad inc).run ops).orig.send = .open ∧
+    ((tcpOpen fo addr pad inc).run ops).orig.wire = .open (Frame.writeRequest addr pad ++ writesOf ops) := by
+  have h0 : (tcpOpen fo addr pad inc).orig.send = .open ∧
+      (tcpOpen fo addr pad inc).orig.sent = Frame.writeRequest addr pad := by
+    simp [tcpOpen, QStream.write, QStream.writeP, exec, Prim.exec, Q.write]
+  obtain ⟨h1, h2⟩ := run_keeps_open ops _ h0.1
+  rw [h0.2] at h2
+  exact ⟨h2, h1, by simp [Q.wire, h1, h2]⟩
+
+/-- and what the server's dispatcher + ReadTCPRequest make of it, for every chunking: the
+    requested address, and as relay payload exactly the bytes written through the conn (C04) -/
+theorem server_reads_what_client_wrote (fo : Bool) (addr pad : Bytes) (inc : List Bytes) (ops : List COp)
+    (cs : List Bytes) (ha : 1 ≤ addr.length) (ha' : addr.length ≤ 2048)
+    (hp : pad.length < Gen.tcpRequestPaddingMax)
+    (hcs : cs.flatten = ((tcpOpen fo addr pad inc).run ops).orig.sent) :
+    (Frame.readFramedRequest Frame.chunked cs).map List.flatten = .ok addr (writesOf ops) := by
+  rw [(tcpconn_write_is_stream_write fo addr pad inc ops).1] at hcs
+  exact C04.go_request_roundtrip addr pad (writesOf ops) cs ha ha' hp hcs
+
+/-- tcpConn.Close after any such use: nil, and the peer is guaranteed the request, every
+    written byte, and then FIN — the tail written just before Close is not dropped. -/
+theorem client_close_delivers_everything (fo : Bool) (addr pad : Bytes) (inc : List Bytes) (ops : List COp) :
+    (((tcpOpen fo addr pad inc).run ops).close).2 = .ok ∧
+    (((tcpOpen fo addr pad inc).run ops).close).1.orig.wire =
+      .finAfter (Frame.writeRequest addr pad ++ writesOf ops) := by
+  obtain ⟨h1, h2, _⟩ := tcpconn_write_is_stream_write fo addr pad inc ops
+  have := qstream_close_finishes_send_and_cancels_read ((tcpOpen fo addr pad inc).run ops).orig [] h2
+  simp only [TcpC.close, tcpCloseM, QMeth.body]
+  exact ⟨this.1, by rw [← h1]; exact this.2.2.2.1⟩
+
+/-- client_write_close_relay_complete: the completeness clause without assuming what
+    QStream.Close means.  The client writes and closes; the server has read the request
+    and is handed the rest of the stream in any chunks `rest` (then the FIN that Close
+    queued: an exhausted script).  With an approving logger and an accepting target, once
+    the up direction has returned with nothing closed yet, the target has received
+    exactly the bytes written through the conn, all of them. -/
+theorem client_write_close_relay_complete (v : Variant) (fo : Bool) (addr pad : Bytes) (inc : List Bytes)
+    (ops : List COp) (cs rest : List Bytes) (sc : Scripts) (sched : List Label)
+    (ha : 1 ≤ addr.length) (ha' : addr.length ≤ 2048) (hp : pad.length < Gen.tcpRequestPaddingMax)
+    (hwire : (((tcpOpen fo addr pad inc).run ops).close).1.orig.wire = .finAfter cs.flatten)
+    (hreq : (Frame.readFramedRequest Frame.chunked cs) = .ok addr rest)
+    (hup : sc.upSrc = deliver Gen.copyBufSize (srcOfChunks rest))
+    (hdown : ∀ r ∈ sc.downSrc, r.data.length ≤ Gen.copyBufSize)
+    (hverd : ∀ b ∈ sc.upVerd, b = true) (hw : ∀ w ∈ sc.upW, w = none) :
+    let s := run v (start sc) sched
+    s.targetClosed = false → s.streamClosed = false → s.connClosed = false → s.up.out ≠ none →
+    s.up.out = some .done ∧ s.up.written.flatten = writesOf ops ∧ s.up.logged = (writesOf ops).length := by
+  intro s h1 h2 h3 hfin
+  have hwire' := (client_close_delivers_everything fo addr pad inc ops).2
+  rw [hwire'] at hwire
+  have hflat : cs.flatten = Frame.writeRequest addr pad ++ writesOf ops := by
+    injection hwire with h; exact h.symm
+  have hrt := C04.go_request_roundtrip addr pad (writesOf ops) cs ha ha' hp hflat
+  rw [hreq] at hrt
+  simp only [Frame.Rd.map, Frame.Rd.ok.injEq, true_and] at hrt
+  have hc : sc.Contract := ⟨by rw [hup]; exact deliver_bound _ const_copybuf_pos _, hdown⟩
+  have hclean : CleanSrc (sc.src .up) := by
+    simp only [Scripts.src, hup]; exact deliver_chunks_clean _ _
+  have := complete_if_no_early_close_partial v sc hc sched .up hclean hverd hw h1 h2 h3 hfin
+  have hdata : sc.data .up = writesOf ops := by
+    simp only [Scripts.data, hup]; rw [deliver_chunks_data, hrt]
+  rw [hdata] at this
+  exact ⟨this.1, this.2.1, this.2.2.1⟩
+
 /-! ### the pinned tree (before the repairs): witnesses -/
 
 /-- D5: without the bound, an error text of 2049..16383 bytes makes the client's own
@@ -436,6 +577,18 @@ example : dataOf (appReads ⟨false, [Frame.writeResponse true connectedMsg [byt
 /-- a declining hook: one response, the hook-less one; an intercepting hook: one response too -/
 example : (serverResponses .fixed .declines (some [byte 110]) [] []).1 = [(serverRespond .fixed (some [byte 110]) []).1] ∧
     (serverResponses .fixed .intercepts (some [byte 110]) [] []).1.length = 1 := by decide
+
+/-- hypotheses of `qstream_close_finishes_send_and_cancels_read` / `client_write_close_relay_complete`
+    on a concrete conn: fast open, one Read that times out, two writes, Close -/
+example : ((tcpOpen true [byte 97] [] []).run [.readTimeout, .write [byte 1], .write [byte 2, byte 3]]).orig.send = .open ∧
+    (((tcpOpen true [byte 97] [] []).run [.readTimeout, .write [byte 1], .write [byte 2, byte 3]]).close).1.orig.wire =
+      .finAfter (Frame.writeRequest [byte 97] [] ++ [byte 1, byte 2, byte 3]) ∧
+    Frame.readFramedRequest Frame.chunked [Frame.writeRequest [byte 97] [], [byte 1], [byte 2, byte 3]] =
+      .ok [byte 97] [[], [byte 1], [byte 2, byte 3]] := by decide
+
+/-- Close on a stream whose send side was reset before reports the error once, then nil -/
+example : (QStream.close (QStream.cancelWrite {} 7).1).2 = .err ∧
+    (QStream.close (QStream.close (QStream.cancelWrite {} 7).1).1).2 = .ok := by decide
 
 /-- a dial error text that needs the bound, and one that does not -/
 example : (boundMsg (List.replicate 2100 (byte 97))).length = 2048 := by
